@@ -12,6 +12,8 @@ def run(rep, kf, tier, seed):
         rep.merge(r)
     import contracts.removal as crm
     import contracts.body_refs as cbr
+    import contracts.model_plumbing as cmp_
+    engine_b.discharge(rep, kf, cmp_.all_contracts(), "C08", tier, seed)
     import contracts.fixpoints as cfp
     engine_b.discharge(rep, kf, [crm.propagate_contract(), cbr.resolve_contract()] + cfp.all_contracts(), "C08", tier, seed)
     run_bounded(rep, kf, "C08", ["removal_closure", "schema_order", "body_media"], tier)
